@@ -70,8 +70,8 @@ func Fixed() []*Grammar {
 	add(&Grammar{ID: "errrec", Seps: wsSeps,
 		Lex: append(letters(),
 			LexDef{Kind: LexRegDef, Name: "_idchar", Pattern: `_letter | _digit | '_'`},
-			LexDef{Kind: LexToken, Name: "id", Pattern: `(_letter | '_') {_idchar}`, Samples: []string{"a", "_x", "foo_1", "Z9"}},
-			LexDef{Kind: LexToken, Name: "num", Pattern: `_digit {_digit}`, Samples: []string{"1", "22"}},
+			LexDef{Kind: LexToken, Name: "id", Pattern: `(_letter | '_') {_idchar}`, Samples: []string{"a", "_x", "foo_1", "Z9", "a_rather_long_identifier_of_more_than_forty_bytes_x"}},
+			LexDef{Kind: LexToken, Name: "num", Pattern: `_digit {_digit}`, Samples: []string{"1", "22", "12345678901234567890123456789012345678901234567890"}},
 			ws()),
 		Prods: []*Prod{
 			P("StmtList", Al(Call(A(0)), "Stmt"), Al(Call(A(0), A(1)), "StmtList", "Stmt")),
